@@ -127,7 +127,7 @@ def cases(rng, tier):
             for h in itertools.combinations(sorted({a, b, 7}), k):
                 for fn in ("rel", "check"):
                     yield {"kind": "rel", "fn": fn, "h": list(h), "a": a, "b": b}
-    ndag, nops, maxn = (30, 14, 10) if tier == "quick" else (400, 22, 16)
+    ndag, nops, maxn = (30, 14, 10) if tier == "quick" else (300, 22, 16)
     dags = list(FIXED)
     for _ in range(ndag):
         dags.append(daglib.gen_dag(rng, rng.randint(2, maxn)))
@@ -174,7 +174,11 @@ def _source(g):
     from breezy.transport import get_transport
     key = json.dumps(g)
     if key not in _state["cache"]:
-        if len(_state["cache"]) > 8:
+        if len(_state["cache"]) > 4:
+            # memory transports scan all stored paths: keep the server small
+            root = get_transport(_state["url"])
+            for old in _state["cache"].values():
+                root.delete_tree(old.base[len(_state["url"]):].strip("/"))
             _state["cache"].clear()
         _state["n"] += 1
         t = get_transport(_state["url"] + "src%d" % _state["n"])
@@ -276,8 +280,14 @@ def impl(inp):
         if type(e).__name__ not in EXPECTED:
             raise
         status = Err(type(e).__name__)
-    tgt = Branch.open(tgt.base)
-    return [status, _info(tgt), None if master is None else _info(Branch.open(master.base))]
+    out = [status, _info(Branch.open(tgt.base)), None if master is None else _info(Branch.open(master.base))]
+    # the memory server keeps everything: drop this case's branches
+    from breezy.transport import get_transport
+    root = get_transport(_state["url"])
+    for b in (tgt, master):
+        if b is not None:
+            root.delete_tree(b.base[len(_state["url"]):].strip("/"))
+    return out
 
 
 # ---- model term ----------------------------------------------------------------------
